@@ -208,3 +208,81 @@ SPEC_NS = {
 AXIOM_SETS = {
     "cnt": axioms_cnt,
 }
+
+
+# ------------------------------------------------------------------------------------------------
+# run-length groups (itertools.groupby), assumed contract X9
+
+def _groups_sorts():
+    from .types import parse_ty
+
+    gt = parse_ty("Tuple[Char,Int]")
+    return gt, sort_of(gt), z3.ArraySort(z3.IntSort(), sort_of(gt))
+
+
+def gsum_fn(letters):
+    gt, gs, GA = _groups_sorts()
+    return z3.Function("gsum_" + "".join(sorted(letters)), GA, z3.IntSort(), z3.IntSort())
+
+
+def gsum_def(letters):
+    """gsum(G, i) = sum over j < i of (G[j].n if G[j].c in letters else 0)"""
+    gt, gs, GA = _groups_sorts()
+    f = gsum_fn(letters)
+    g = z3.Const("gd!g", GA)
+    n = z3.Int("gd!n")
+    c = gs.accessor(0, 0)
+    k = gs.accessor(0, 1)
+    return [
+        z3.ForAll([g, n], z3.Implies(n <= 0, f(g, n) == 0), patterns=[f(g, n)]),
+        z3.ForAll([g, n], z3.Implies(n > 0, f(g, n) == f(g, n - 1) + z3.If(letters_member(c(z3.Select(g, n - 1)), letters), k(z3.Select(g, n - 1)), 0)),
+                  patterns=[f(g, n)]),
+    ]
+
+
+def axioms_gsum():
+    out = []
+    for s in ("md", "mi"):
+        out.extend(gsum_def(s))
+    return out
+
+
+def s_gsum(I, groups, letters, upto):
+    from .core import as_slist
+
+    return SV(gsum_fn(letters)(groups.arr, zint(upto)), INT)
+
+
+def x9_groupby_runs(I, n, env):
+    """Assumed contract X9 for `[(c, len(list(v))) for c, v in groupby(track)]`:
+    the result G is the run-length encoding of track -- every run is non-empty, adjacent runs have
+    different letters, every letter of G occurs in track, and for each letter set S the number of
+    letters of track in S equals the sum of the lengths of the runs whose letter is in S."""
+    from .core import fresh_value
+    from .types import parse_ty
+
+    gen = n.generators[0]
+    track = I.eval(gen.iter.args[0], env)
+    tl = as_slist(I.ctx, track)
+    gty = parse_ty("List[Tuple[Char,Int]]")
+    G = fresh_value(I.ctx, gty, "groups")
+    G.immutable = False
+    gt, gs, GA = _groups_sorts()
+    c = gs.accessor(0, 0)
+    k = gs.accessor(0, 1)
+    i = z3.Int(I.ctx.fresh_name("gi"))
+    I.ctx.assume(forall([i], z3.Implies(z3.And(0 <= i, i < G.nz()), k(z3.Select(G.arr, i)) >= 1), patterns=[z3.Select(G.arr, i)]), tag="X9")
+    j = z3.Int(I.ctx.fresh_name("gj"))
+    I.ctx.assume(forall([j], z3.Implies(z3.And(0 <= j, j + 1 < G.nz()), c(z3.Select(G.arr, j)) != c(z3.Select(G.arr, j + 1))), patterns=[z3.Select(G.arr, j)]), tag="X9")
+    for S in ("md", "mi"):
+        I.ctx.assume(cnt_fn(S)(tl.arr, tl.nz()) == gsum_fn(S)(G.arr, G.nz()), tag="X9")
+    # letters of the groups are letters of the track
+    q = z3.Int(I.ctx.fresh_name("gq"))
+    w = z3.Int(I.ctx.fresh_name("gw"))
+    I.ctx.assume(forall([q], z3.Implies(z3.And(0 <= q, q < G.nz()), z3.Exists([w], z3.And(0 <= w, w < tl.nz(), z3.Select(tl.arr, w) == c(z3.Select(G.arr, q))))), patterns=[z3.Select(G.arr, q)]), tag="X9")
+    I.ctx.assume(z3.Implies(tl.nz() == 0, G.nz() == 0), tag="X9")
+    return G
+
+
+SPEC_NS["gsum"] = s_gsum
+AXIOM_SETS["gsum"] = axioms_gsum
